@@ -49,6 +49,11 @@ CHECKS = {
          "All sequences of length <=3 (<=4 thorough) over {valid A, valid B, unreadable, syntax error, DSL error, unloadable import in a type filter, empty file}, given as comma list and as glob, x failOn {unset, dsl, import, all, dsl+import, bogus, dsl+bogus, 'all,'} x legacy boolean; enable x disable lists (names, #tags, #experimental, unknown) on representative sequences; a pattern matching nothing in each position; unknown failOn without rules. Each configuration executes the real newRuleguardChecker and then analyses a file that triggers every group; the oracle is a 60-line reference model (init fails iff ...; runs(g) iff ...; diagnostics exactly those of running groups from surviving files, nothing when no file survives).",
          "Left open because the statement does not settle them (both answers accepted, counted in evidence): the failure class of an unreadable file under failOn=dsl/import, an experimental group enabled by name only, the same valid file listed twice. The go-ruleguard engine is trusted for matching.",
          "DESIGN.md section 3, C18"),
+ "C19": ("fault_enumeration",
+         "exhaustive enumeration of invalid configurations x front-ends x package counts, of analyzer-pass histories on the real init latch, and of load-fault target sets; oracle: clean non-zero exit with a naming message, never a panic, nothing analysed after failed init, outcome independent of package count",
+         "13 invalid configurations (5 malformed -go values, unknown failOn, rule pattern without match, two empty selections, two unparsable parameter values, unknown flag, unknown parameter) x the 4 real binaries x 1..3 packages; the analyzer's cached-configuration latch explored as an explicit state machine: all sequences of <=4 passes over {valid, valid-2, bad -go, empty selection, bad rule pattern} from the reset latch on the real prepareGocritic/runAnalyzer (driven through Analyzer.Run, latch reset/read by an overlay-added hook file); target sets of <=2 packages over {ok, syntax error, type error, unresolved import, mixed package clauses, import cycle, only _test files, empty dir} x 4 binaries x enable-all; ill-typed 1-deviation variants of the examples analysed in-process by all checkers.",
+         "A faulty package that is analysed with zero diagnostics and exit 0 is accepted (the property allows 'analysed as far as its type information allows').",
+         "DESIGN.md section 3, C19"),
 }
 
 PENDING = {
